@@ -30,7 +30,7 @@ EXPLANATION = (
 )
 NONTRIVIAL_RULE = "had at least one matching descriptor (static) / fired or was blocked by a candidate (engine)"
 BOUNDS = {
-    "descriptor_static": "2 or 3 pairwise distinct keys and an event type, each an arbitrary (unicode) str of <= L chars (L in the item label); the event optionally prefixed by one of '', 'done.', 'error.', 'after.', 'xstate.'",
+    "descriptor_static": "2 or 3 pairwise distinct keys and an event type, each an arbitrary (unicode) str of <= L chars (L in the item label); the event - and in the 'prefixed key' items also the first key - optionally prefixed by one of '', 'done.', 'error.', 'after.', 'xstate.'",
     "descriptor_engine": "fixed two-level machine (keys a, a.*, a.b, a.b.*, *, done.x at child and root, two guarded candidates per key, optional null entry per variant); event type = optional internal prefix + arbitrary str of <= L chars; guard outcomes: 5 shared booleans + one three-valued (true/false/raise) guard, read lazily",
 }
 ASSUMPTIONS = [
@@ -94,7 +94,7 @@ def _alpha_ok(s: str, alpha: str) -> bool:
 _PREFIXES = ["", "done.", "error.", "after.", "xstate."]
 
 
-def descriptor_static(k1: str, k2: str, k3: str, pre: int, tail: str) -> bool:
+def descriptor_static(k1: str, k2: str, k3: str, pre: int, tail: str, kpre: int = 0) -> bool:
     """
     pre: len(k1) <= P['L'] and len(k2) <= P['L'] and len(k3) <= P['L'] and len(tail) <= P['L']
     pre: len(k1) > 0 and len(k2) > 0
@@ -104,6 +104,12 @@ def descriptor_static(k1: str, k2: str, k3: str, pre: int, tail: str) -> bool:
     """
     from xstate_statemachine.base_interpreter import BaseInterpreter
 
+    # the first key may itself carry an engine-internal prefix ('done.*', 'error.x.*', ...): a user-level partial
+    # descriptor that must not catch engine-raised events
+    kp = _PREFIXES[common.pick(kpre, len(_PREFIXES))] if P.get("kprefix") else ""
+    if kp and kp + k1 == k2:
+        return verdict(True, nontrivial=False)
+    k1 = kp + k1
     keys = [k1, k2]
     if P.get("nkeys", 2) >= 3:
         if len(k3) == 0:
@@ -296,6 +302,8 @@ def items(tier: str, seed: int) -> List[Dict[str, Any]]:
                 "path_timeout": 40, "label": f"descriptor_static[2keys,L={3 if quick else 4}]"})
     out.append({"ob": "descriptor_static", "params": {"L": 2 if quick else 3, "nkeys": 3}, "timeout": 200 if quick else 1800,
                 "path_timeout": 40, "label": f"descriptor_static[3keys,L={2 if quick else 3}]"})
+    out.append({"ob": "descriptor_static", "params": {"L": 2 if quick else 3, "nkeys": 2, "kprefix": True}, "timeout": 300 if quick else 1800,
+                "path_timeout": 40, "label": f"descriptor_static[2keys,prefixed key,L={2 if quick else 3}]"})
     L = 3 if quick else 5
     for v in range(len(_VARIANTS)):
         for eng in (0, 1):
